@@ -269,7 +269,10 @@ def make_strategy(script, observer=None, name='S'):
         def on_open_position(self, order):
             e = script.get('on_open')
             if e:
-                base = self.position.entry_price
+                # 'base': 'price' (oracle sessions only; the Lean model and the wire format know only the entry price):
+                # exits measured from what the position is marked at WHEN THE HOOK RUNS — the fill price in the
+                # normal simulator, so both bases agree there for a single-fill entry
+                base = self.position.current_price if e.get('base') == 'price' else self.position.entry_price
                 sign = 1 if self.is_long else -1
                 if e.get('sl'):
                     self.stop_loss = [(q if q else abs(self.position.qty), base - sign * off) for (q, off) in e['sl']]
